@@ -432,8 +432,11 @@ fn show_hint(h: (usize, Option<usize>)) -> String {
     }
 }
 
-fn iterate<D: DeserializeOwned + Show>(range: &Range<Data>, cfg: &Cfg) -> String {
-    let built: Result<RangeDeserializer<'_, Data, D>, DeError> = match cfg {
+fn build<'a, D: DeserializeOwned>(
+    range: &'a Range<Data>,
+    cfg: &Cfg,
+) -> Result<RangeDeserializer<'a, Data, D>, DeError> {
+    match cfg {
         Cfg::NoHeaders => RangeDeserializerBuilder::new().has_headers(false).from_range(range),
         Cfg::AllViaRange => range.deserialize(),
         Cfg::AllViaBuilder => RangeDeserializerBuilder::new().has_headers(true).from_range(range),
@@ -441,7 +444,61 @@ fn iterate<D: DeserializeOwned + Show>(range: &Range<Data>, cfg: &Cfg) -> String
         Cfg::FromTarget => {
             RangeDeserializerBuilder::with_deserialize_headers::<D>().from_range(range)
         }
-    };
+    }
+}
+
+fn show_item<D: Show>(x: &Result<D, DeError>) -> String {
+    match x {
+        Ok(rec) => format!("ok:{}", rec.show()),
+        Err(e) => show_err(e),
+    }
+}
+
+/// The items reached through the other ways of driving the iterator (nth, skip, step_by, last,
+/// count) must be the items plain next() yields: same records, same error positions.
+fn other_drivers<D: DeserializeOwned + Show>(range: &Range<Data>, cfg: &Cfg, plain: &[String]) -> String {
+    let n = plain.len();
+    for k in [1usize, 2, 3] {
+        if let Ok(mut it) = build::<D>(range, cfg) {
+            let got = it.nth(k).map(|x| show_item(&x));
+            if got.as_deref() != plain.get(k).map(|s| s.as_str()) {
+                return format!("|ITERMISMATCH:nth({})", k);
+            }
+            let next = it.next().map(|x| show_item(&x));
+            if next.as_deref() != plain.get(k + 1).map(|s| s.as_str()) {
+                return format!("|ITERMISMATCH:next-after-nth({})", k);
+            }
+        }
+    }
+    if let Ok(it) = build::<D>(range, cfg) {
+        let got: Vec<String> = it.skip(2).map(|x| show_item(&x)).collect();
+        if got[..] != plain[n.min(2)..] {
+            return "|ITERMISMATCH:skip(2)".to_string();
+        }
+    }
+    if let Ok(it) = build::<D>(range, cfg) {
+        let got: Vec<String> = it.step_by(2).map(|x| show_item(&x)).collect();
+        let want: Vec<String> = plain.iter().step_by(2).cloned().collect();
+        if got != want {
+            return "|ITERMISMATCH:step_by(2)".to_string();
+        }
+    }
+    if let Ok(it) = build::<D>(range, cfg) {
+        if it.last().map(|x| show_item(&x)).as_deref() != plain.last().map(|s| s.as_str()) {
+            return "|ITERMISMATCH:last".to_string();
+        }
+    }
+    if let Ok(it) = build::<D>(range, cfg) {
+        if it.count() != n {
+            return "|ITERMISMATCH:count".to_string();
+        }
+    }
+    String::new()
+}
+
+fn iterate<D: DeserializeOwned + Show>(range: &Range<Data>, cfg: &Cfg) -> String {
+    let built: Result<RangeDeserializer<'_, Data, D>, DeError> = build::<D>(range, cfg);
+    let mut plain: Vec<String> = Vec::new();
     let mut it = match built {
         Ok(it) => it,
         Err(e) => return format!("new-{}", show_err(&e)),
@@ -451,8 +508,11 @@ fn iterate<D: DeserializeOwned + Show>(range: &Range<Data>, cfg: &Cfg) -> String
     loop {
         let h = it.size_hint();
         match it.next() {
-            Some(Ok(rec)) => out.push(format!("{}:ok:{}", show_hint(h), rec.show())),
-            Some(Err(e)) => out.push(format!("{}:{}", show_hint(h), show_err(&e))),
+            Some(x) => {
+                let t = show_item(&x);
+                out.push(format!("{}:{}", show_hint(h), t));
+                plain.push(t);
+            }
             None => {
                 out.push(format!("{}:end", show_hint(h)));
                 out.push(format!("{}:end", show_hint(it.size_hint())));
@@ -465,7 +525,8 @@ fn iterate<D: DeserializeOwned + Show>(range: &Range<Data>, cfg: &Cfg) -> String
             break;
         }
     }
-    out.join("|")
+    let extra = if guard <= 100_000 { other_drivers::<D>(range, cfg, &plain) } else { String::new() };
+    out.join("|") + &extra
 }
 
 fn run_vec<K: DeserializeOwned + Show>(r: &Range<Data>, c: &Cfg) -> String {
